@@ -494,4 +494,38 @@ def r_validafter(ctx, prog, rule="R-VALIDAFTER"):
     ctx.doc(rule, [l.strip() for l in __doc__.split("\n") if l.startswith(rule)][0])
 
 
+def r_numlook(ctx, prog, rule="R-NUMLOOK"):
+    """parse() judges "something follows a float" by Latch::last(), which is
+    the character after the number only if the number routine looked at it:
+    in parseNumericValue no `return Ok` is reached after a move() without a
+    current() in between (forward typestate)."""
+    n = 0
+    uses_last = any(st_["callee"]["q"].endswith("Latch::last") for f_ in jd(prog, "parse") for _, st_ in f_.calls())
+    for fn in jd(prog, "parseNumericValue")[:1]:
+        n += 1
+
+        def _tr(fn_, e_, s_):
+            st_ = fn_.s(e_)
+            if st_["k"] in P.CALL_KINDS and "callee" in st_ and "JsonDeserializer" in st_["callee"]["q"]:
+                n_ = st_["callee"]["q"].split("::")[-1]
+                if n_ == "move":
+                    return ("moved",)
+                if n_ == "current":
+                    return ("looked",)
+            return (s_,)
+
+        def _ck(fn_, e_, s_):
+            if s_ == "moved" and returns_code(fn_, e_, "Ok"):
+                return "Ok after move() without current()"
+            return None
+        reps, _x, err = typestate.analyse(fn, "looked", _tr, None, _ck)
+        ok = (not reps and not err) or not uses_last
+        ctx.ob(rule, "parseNumericValue returns Ok with the following character looked at", None if err else ok, fn.where if ok else fn.loc(reps[0][0]),
+               "every Ok return follows a current() after the last move()" if ok else
+               "an Ok return is reached right after move() (the 63-character buffer is full): parse() then takes the number's own last "
+               "character for what follows it and rejects a valid 63-character number")
+    ctx.floor(rule, "parseNumericValue", n, 1)
+    ctx.doc(rule, r_numlook.__doc__.strip().replace("\n", " "))
+
+
 EOF_MARKER = None
